@@ -133,3 +133,132 @@ Definition sp_cdt_row (i : nat) (r : string * list Q) : cdt_row :=
 Definition sp_nexus_row (b : bin) : nexus_row :=
   (b_chrom b, b_lo b, b_hi b, b_gene b, b_v b,
    (b_chrom b ++ ":" ++ print_Z (b_lo b + 1) ++ "-" ++ print_Z (b_hi b))%string).
+
+(* ---------------------------------------------------------------- round half to even *)
+
+(* n is the integer nearest to x, the even one of the two when x lies exactly half-way
+   (numpy's / IEEE's round-half-to-even): this determines n *)
+Definition half_even (n : Z) (x : Q) : Prop :=
+  nearest n x /\ (Qabs (inject_Z n - x) == 1 # 2 -> Z.even n = true)%Q.
+
+(* ---------------------------------------------------------------- CIPOS / CIEND *)
+
+(* the bins of the .cnr sharing at least one base with the segment, in table order: (start, end) *)
+Definition sp_bins_in (bins : list (string * Z * Z)) (s : seg) : list (Z * Z) :=
+  map (fun b : string * Z * Z => (snd (fst b), snd b))
+      (filter (fun b : string * Z * Z =>
+                 String.eqb (fst (fst b)) (s_chrom s) && (snd (fst b) <? s_hi s) && (s_lo s <? snd b)) bins).
+
+(* from the segment's start to the end of its first bin; from the start of its last bin to
+   the segment's end; None: the segment has no bin *)
+Definition sp_left_margin (bins : list (string * Z * Z)) (s : seg) : option Z :=
+  match sp_bins_in bins s with [] => None | b :: _ => Some (snd b - s_lo s) end.
+Definition sp_right_margin (bins : list (string * Z * Z)) (s : seg) : option Z :=
+  match sp_bins_in bins s with [] => None | b :: t => Some (s_hi s - fst (last t b)) end.
+
+Definition dflt_seg : seg := mkSeg "" 0 0 "" 0 0 0 None.
+
+(* (CIPOS, CIEND) of the i-th segment of the table, as the code computes them: the position
+   may lie as far left as the previous row's last bin start (minus that row's right margin;
+   0 for the first row) and as far right as the end of the segment's own first bin; the end
+   as far left as the start of the segment's own last bin and as far right as the next row's
+   first bin end (0 for the last row).  "Previous" / "next" are the table's rows, whatever
+   their chromosome. *)
+Definition sp_ci (bins : list (string * Z * Z)) (rows : list seg) (i : nat) : ciquad :=
+  ((match i with
+    | O => Some 0
+    | S j => option_map Z.opp (sp_right_margin bins (nth j rows dflt_seg))
+    end,
+    sp_left_margin bins (nth i rows dflt_seg)),
+   (sp_right_margin bins (nth i rows dflt_seg),
+    if (S i =? length rows)%nat then Some 0 else sp_left_margin bins (nth (S i) rows dflt_seg))).
+
+(* ---------------------------------------------------------------- VCF text *)
+
+Definition sp_tab : string := String (ascii_of_nat 9) EmptyString.
+
+Definition sp_info (r : vcf_rec) (tok : string * string) (ci : option (string * string)) : string :=
+  ("IMPRECISE;SVTYPE=" ++ v_svtype r ++ ";END=" ++ print_Z (v_end r) ++ ";SVLEN=" ++ print_Z (v_svlen r)
+   ++ ";FOLD_CHANGE=" ++ fst tok ++ ";FOLD_CHANGE_LOG=" ++ snd tok ++ ";PROBES=" ++ print_Z (v_probes r)
+   ++ match ci with Some (a, b) => ";" ++ a ++ ";" ++ b | None => "" end)%string.
+
+(* #CHROM POS ID REF ALT QUAL FILTER INFO FORMAT sample, tab-separated; ID, QUAL, FILTER are "." *)
+Definition sp_vcf_line (r : vcf_rec) (tok : string * string) (ci : option (string * string)) : string :=
+  (v_chrom r ++ sp_tab ++ print_Z (v_pos r) ++ sp_tab ++ "." ++ sp_tab ++ "N" ++ sp_tab
+   ++ "<" ++ v_svtype r ++ ">" ++ sp_tab ++ "." ++ sp_tab ++ "." ++ sp_tab ++ sp_info r tok ci ++ sp_tab
+   ++ v_format r ++ sp_tab ++ v_sample r)%string.
+
+Definition sp_vcf_column_line (sid : string) : string :=
+  ("#CHROM" ++ sp_tab ++ "POS" ++ sp_tab ++ "ID" ++ sp_tab ++ "REF" ++ sp_tab ++ "ALT" ++ sp_tab ++ "QUAL"
+   ++ sp_tab ++ "FILTER" ++ sp_tab ++ "INFO" ++ sp_tab ++ "FORMAT" ++ sp_tab ++ sid)%string.
+
+(* CIPOS=(a,b) / CIEND=(c,d) with the margins printed as integers -- the text when every
+   segment of the table has a bin (integer columns; a missing margin would print as nan) *)
+Definition sp_margin_text (o : option Z) : string :=
+  match o with Some z => print_Z z | None => "nan"%string end.
+
+Definition sp_ci_text (q : ciquad) : string * string :=
+  let '((a, b), (c, d)) := q in
+  (("CIPOS=(" ++ sp_margin_text a ++ "," ++ sp_margin_text b ++ ")")%string,
+   ("CIEND=(" ++ sp_margin_text c ++ "," ++ sp_margin_text d ++ ")")%string).
+
+(* ---------------------------------------------------------------- nexus-ogt *)
+
+(* a bin is dropped iff a threshold is given, the table has weights and the bin's weight is
+   a number below the threshold *)
+Definition sp_ogt_keeps (min_weight : Q) (has_weight : bool) (b : obin) : bool :=
+  negb (negb (Qeq_bool min_weight 0) && has_weight
+        && match o_w b with Some w => negb (Qle_bool min_weight w) | None => false end).
+
+(* ---------------------------------------------------------------- THetA *)
+
+(* an integer name, optionally prefixed with "chr" *)
+Definition sp_is_auto (s : string) : bool :=
+  let l := chars s in
+  let d := if prefixb (chars "chr") l then skipn 3 l else l in
+  match d with [] => false | _ => forallb is_digit d end.
+
+(* the segments THetA gets: the autosomal ones; the whole table when no chromosome is named
+   by an integer *)
+Definition sp_theta_kept (rows : list tseg) : list tseg :=
+  if existsb (fun s => sp_is_auto (t_chrom s)) rows then filter (fun s => sp_is_auto (t_chrom s)) rows else rows.
+
+(* chrm: 1-based rank of the chromosome among the kept rows' distinct names, first appearance *)
+Definition sp_theta_chrm (kept : list tseg) (s : tseg) : Z :=
+  match first_index (t_chrom s) (uniq (map t_chrom kept)) 1 with Some i => i | None => 0 end.
+
+Definition sp_theta_id (chrm lo hi : Z) : string :=
+  ("start_" ++ print_Z chrm ++ "_" ++ print_Z lo ++ ":end_" ++ print_Z chrm ++ "_" ++ print_Z hi)%string.
+
+(* #ID, chrm, start (0-based, as in the table), end *)
+Definition sp_theta_key (kept : list tseg) (s : tseg) : string * Z * Z * Z :=
+  (sp_theta_id (sp_theta_chrm kept s) (t_lo s) (t_hi s), sp_theta_chrm kept s, t_lo s, t_hi s).
+
+(* read count before rounding: nbins * 200 * (2^log2 * 500) / 100 *)
+Definition sp_theta_value (e nb : Q) : Q := (nb * 200 * (e * 500) / 100)%Q.
+
+Definition sp_sum (l : list Q) : Q := fold_right Qplus 0%Q l.
+Definition sp_mean (l : list Q) : Q := (sp_sum l / inject_Z (Z.of_nat (length l)))%Q.
+
+(* the per-segment bin counts when no normal / reference is given (m = the largest weight,
+   characterised by C20_theta_max):
+     weights with some value above 1 ("already multiplied by the probe counts"): weight * mean / max;
+     otherwise the probe count -- or, without a probes column, the segment's size over the
+     mean size -- times, when there are (old-style) weights, weight / mean weight *)
+Definition sp_theta_nbins (hp hw : bool) (m : Q) (kept : list tseg) : list Q :=
+  let ws := map t_weight kept in
+  let sizes := map (fun s => inject_Z (t_hi s - t_lo s)) kept in
+  if hw && existsb (fun w => negb (Qle_bool w 1)) ws
+  then map (fun w => w / (m / sp_mean ws))%Q ws
+  else map (fun s => ((if hp then inject_Z (t_probes s) else inject_Z (t_hi s - t_lo s) / sp_mean sizes)
+                      * (if hw then t_weight s / sp_mean ws else 1))%Q) kept.
+
+(* the log2 of the normal's bins sharing a base with the segment, in table order *)
+Definition sp_normal_log2 (normal : list nbin) (s : tseg) : list Q :=
+  map nb_log2
+      (filter (fun b => String.eqb (nb_chrom b) (t_chrom s)
+                        && (snd (fst (nb_region b)) <? t_hi s) && (t_lo s <? snd (nb_region b))) normal).
+
+(* the normal table THetA's reference means are taken from: its autosomal bins *)
+Definition sp_theta_normal (normal : list nbin) : list nbin :=
+  if existsb (fun b => sp_is_auto (nb_chrom b)) normal then filter (fun b => sp_is_auto (nb_chrom b)) normal else normal.
